@@ -1639,6 +1639,9 @@ func main() {
 		return
 	}
 
+	// in-process stage, after everything else (the in-process leak oracles below count the goroutines of this process)
+	defer func() { tunnelDeadlineReport(ctx, tunnelDeadlineRun(ctx.Budget(300, 1200))) }()
+
 	// malformed stream: illegal callback words must be refused by the automaton at the right place
 	for _, m := range []struct {
 		w    []uint64
